@@ -6,12 +6,13 @@ import common
 import fcsgen
 import fcswriter
 from c01 import compare_load
+from c14 import ref_tokenize, pairs_to_items
 
 
 class Prop(common.PropertyCheck):
     pid = 'C16'
     rule = ("for generated files of every C01 layout (plus trailing ANALYSIS / supplemental TEXT and DATA-before-TEXT orders): truncation at EVERY byte "
-            "offset 0..len-1, single-field corruption of $TOT, $PAR, each $PnB, HEADER and TEXT offsets (smaller, larger, +-1), and the empty file. "
+            "offset 0..len-1, single-field corruption of $TOT, $PAR, each $PnB, HEADER and TEXT offsets of DATA, TEXT, supplemental TEXT and ANALYSIS (smaller, larger, +-1, and positions inside the keyword segments), and the empty file; events AND keywords are compared with the intact file. "
             "Non-trivial = distinct (layout signature, damage kind, outcome class) with the cut/corruption inside a segment that is actually read.")
     batch_size = 2000
     assumptions = ["ANALYSIS parse failures are documented to degrade to a warning and an empty dictionary (C14); a truncated ANALYSIS segment giving {} + warning is accepted, a silently different dictionary is not",
@@ -50,9 +51,25 @@ class Prop(common.PropertyCheck):
                      ['hdr:text_begin', 'hdr:text_end', 'hdr:data_begin', 'hdr:data_end']
             if spec['version'] != 'FCS2.0':
                 fields += ['$BEGINDATA', '$ENDDATA']
+            if 'A' in layout['segs']:
+                fields += ['hdr:analysis_begin', 'hdr:analysis_end'] + (['$BEGINANALYSIS', '$ENDANALYSIS'] if spec['version'] != 'FCS2.0' else [])
+            if 'S' in layout['segs']:
+                fields += ['$BEGINSTEXT', '$ENDSTEXT']
             for f in fields:
                 for delta in (-1, 1, -8, 8, 'half', 'double', 'zero'):
                     yield {'k': 'corrupt', 'spec': spec, 'field': f, 'delta': delta}
+            # offsets of the keyword segments moved to positions inside the segment (pair boundaries, inside keys, inside values)
+            for segk, fs in (('T', ['hdr:text_end', 'hdr:text_begin']), ('S', ['$ENDSTEXT', '$BEGINSTEXT']),
+                             ('A', ['hdr:analysis_end', '$ENDANALYSIS', 'hdr:analysis_begin', '$BEGINANALYSIS'])):
+                if segk not in layout['segs']:
+                    continue
+                b, e = layout['segs'][segk]
+                lo = max(b + 1, e - 45)
+                positions = list(range(lo, e)) if self.tier == 'thorough' else sorted(rng.sample(range(lo, e), min(8, e - lo)))
+                for f in fs:
+                    if f in fields:
+                        for pos in positions:
+                            yield {'k': 'corrupt', 'spec': spec, 'field': f, 'delta': ['to', pos]}
 
     # ---- helpers ----------------------------------------------------------------
     def intact(self, spec):
@@ -75,6 +92,8 @@ class Prop(common.PropertyCheck):
                 return old * 2
             if delta == 'zero':
                 return 0
+            if isinstance(delta, (list, tuple)):
+                return delta[1]
             return old + delta
         pairs = dict((k, v) for k, v in layout['text_pairs'])
         if field.startswith('hdr:'):
@@ -85,7 +104,7 @@ class Prop(common.PropertyCheck):
         else:
             old = int(pairs[field])
             new = max(0, newval(old))
-            if field in ('$BEGINDATA', '$ENDDATA'):
+            if field in ('$BEGINDATA', '$ENDDATA', '$BEGINANALYSIS', '$ENDANALYSIS', '$BEGINSTEXT', '$ENDSTEXT'):
                 s.setdefault('overrides', {})[field] = fcswriter.off(new)
             else:
                 s.setdefault('overrides', {})[field] = str(new)
@@ -96,6 +115,7 @@ class Prop(common.PropertyCheck):
             d2, l2 = fcswriter.build(s)
         except AssertionError:
             return None, None
+        self._l2 = l2
         return d2, (old, new)
 
     def implied(self, spec, field, new, layout):
@@ -144,6 +164,7 @@ class Prop(common.PropertyCheck):
         r = fcsgen.load_bytes(d2, want_fcsdata=False)
         r['file'] = list(d2)
         r['change'] = list(change)
+        r['written'] = {'text_pairs': self._l2['text_pairs'], 'segs': self._l2['segs']}
         return r
 
     def post(self):
@@ -176,13 +197,84 @@ class Prop(common.PropertyCheck):
         # corruption
         old, new = impl['change']
         if impl['data'] == intact['data'] and impl['shape'] == intact['shape']:
-            return None
+            return self.keywords_oracle(case, impl, intact, layout, data, old, new)
         imp = self.implied(case['spec'], case['field'], new, layout)
         if imp is not None and imp[0] in (imp[1], imp[1] - 1):
             self.exclude('tolerated-ambiguous corruption (implied size == extent or extent-1)')
             return None
         return '%s corrupted %s -> %s: loaded a different matrix %s instead of failing (intact %s)' % (
             case['field'], old, new, impl['shape'], intact['shape'])
+
+    def keywords_oracle(self, case, impl, intact, layout, data, old, new):
+        """events are intact: the keywords must be the intact ones too (the corrupted keyword itself apart)"""
+        field = case['field']
+        data = bytes(impl['file'])                      # the damaged file
+        layout = dict(layout, segs=impl['written']['segs'])
+        enc = lambda its: sorted([list(k.encode('latin1')), list(v.encode('latin1'))] for k, v in its)
+        # the keywords the damaged file was written with (the damaged field has its damaged value there)
+        spec = case['spec']
+        wtext = dict((k, v) for k, v in impl['written']['text_pairs'])
+        wtext.update(dict((k, v) for k, v in (spec.get('stext') or [])))
+        want_text = enc(wtext.items())
+        want_an = enc(dict((k, v) for k, v in (spec.get('analysis') or [])).items()) if spec.get('raw_analysis') is None else intact['analysis']
+
+        def drop(items):
+            return items
+        same_text = impl['text'] == want_text
+        same_an = impl['analysis'] == want_an
+        if same_text and same_an:
+            return None
+        if same_text and impl['analysis'] == [] and 'analysis' in impl['warnings']:
+            self.exclude('corrupted ANALYSIS offsets degraded to {} with the documented warning')
+            return None
+        # what a reader that trusts the (wrong) extent and finds it well formed would return -- computed with the independent tokenizer
+        seg_of = {'hdr:text_begin': 'T', 'hdr:text_end': 'T', '$BEGINSTEXT': 'S', '$ENDSTEXT': 'S', 'hdr:analysis_begin': 'A', 'hdr:analysis_end': 'A',
+                  '$BEGINANALYSIS': 'A', '$ENDANALYSIS': 'A'}
+        trusted = None
+        segk = seg_of.get(field)
+        if segk:
+            b, e = layout['segs'][segk]
+            if field.endswith('begin') or field.startswith('$BEGIN'):
+                b = new
+            else:
+                e = new
+            raw = bytes(data)[b:e + 1].decode('latin1') if 0 <= b <= e < len(data) else None
+            if new == 0 and segk in ('S', 'A'):
+                raw = ''            # an offset of zero declares the segment absent
+            d = chr(data[layout['segs']['T'][0]])
+            if raw is not None:
+                if segk == 'T':
+                    d = raw[0] if raw else d
+                r = ref_tokenize(raw, d, segk != 'T')
+                if r[0] in ('ok', 'warn'):
+                    items = pairs_to_items(r[1])
+                    if segk == 'A':
+                        trusted = same_text and impl['analysis'] == enc(items)
+                    else:
+                        if segk == 'T':
+                            merged = dict((k, v) for k, v in items)
+                            if 'S' in layout['segs']:
+                                sb, se = layout['segs']['S']
+                                rs = ref_tokenize(bytes(data)[sb:se + 1].decode('latin1'), d, True)
+                                if rs[0] in ('ok', 'warn'):
+                                    merged.update(dict((k, v) for k, v in pairs_to_items(rs[1])))
+                        else:
+                            tb, te = layout['segs']['T']
+                            rp = ref_tokenize(bytes(data)[tb:te + 1].decode('latin1'), d, False)
+                            merged = dict((k, v) for k, v in pairs_to_items(rp[1])) if rp[0] in ('ok', 'warn') else {}
+                            merged.update(dict((k, v) for k, v in items))
+                        trusted = same_an and drop(enc(merged.items())) == drop(impl['text'])
+        what = []
+        if not same_text:
+            it = dict((bytes(k).decode('latin1'), bytes(v).decode('latin1')) for k, v in want_text)
+            im = dict((bytes(k).decode('latin1'), bytes(v).decode('latin1')) for k, v in drop(impl['text']))
+            what.append('missing %s, changed %s, added %s' % (sorted(set(it) - set(im))[:4], sorted(k for k in it if k in im and it[k] != im[k])[:4], sorted(set(im) - set(it))[:4]))
+        if not same_an:
+            what.append('ANALYSIS %d keywords instead of %d' % (len(impl['analysis']), len(want_an)))
+        msg = '%s corrupted %s -> %s: loaded without error, events intact, but with different keywords (%s)' % (field, old, new, '; '.join(what))
+        if trusted:
+            msg += ' [the loaded keywords are exactly those of the corrupted %s extent read as a well-formed segment]' % {'T': 'TEXT', 'S': 'supplemental TEXT', 'A': 'ANALYSIS'}[segk]
+        return msg
 
     def model_request(self, case, impl):
         if impl.get('skip'):
